@@ -1,7 +1,7 @@
 (* Proofs/C09Hash.v — the symbol count recovered from a SysV or GNU hash table equals
    the true count, for every valid table (C03 has no count lemmas yet; these are C09's own). *)
-From PV Require Import Model.C09Dynamic Base.Enum.
-From PV Require Import Proofs.PrimProofs Proofs.FmtProofs Proofs.ElfLayoutFacts Proofs.C09Tags.
+From PV Require Import Model.C09Dynamic Base.Enum Gen.C09Hash.
+From PV Require Import Proofs.PrimProofs Proofs.FmtProofs Proofs.ElfLayoutFacts Proofs.C09Tables Proofs.C09Tags.
 From Coq Require Import ZifyBool.
 Open Scope string_scope.
 Open Scope list_scope.
@@ -9,11 +9,16 @@ Open Scope Z_scope.
 
 (* ---------- SysV: nchain ---------- *)
 Theorem sysv_count f off N :
-  sysv_valid (f_le f) (seekz (f_img f) off) N = true -> sysv_num_symbols f off = Ok N.
+  sysv_valid (f_le f) (spec_hash_wide (e_machine (f_eh f)) (f_is64 f)) (seekz (f_img f) off) N = true ->
+  sysv_num_symbols f off = Ok N.
 Proof.
-  unfold sysv_valid, sysv_num_symbols, parse_counted_at. rewrite gen_Elf_Hash_gabi.
-  destruct (decode_counted _ _ _ _) as [[r t]|]; [|discriminate].
-  intros H. cbn [bind]. f_equal. lia.
+  unfold sysv_valid, sysv_num_symbols, Elf_Hash_layout. rewrite hash_wide_spec.
+  assert (HL : (if spec_hash_wide (e_machine (f_eh f)) (f_is64 f) then gen_Elf_Hash_wide (f_le f)
+                else gen_Elf_Hash (f_le f) (f_is64 f))
+               = spec_Elf_Hash_w (f_le f) (spec_hash_wide (e_machine (f_eh f)) (f_is64 f))).
+  { destruct (spec_hash_wide _ _); [apply gen_Elf_Hash_wide_spec|apply gen_Elf_Hash_gabi]. }
+  rewrite HL. destruct (decode_counted_w _ _ _ _ _) as [[r t]|]; [|discriminate].
+  intros H. f_equal. lia.
 Qed.
 
 (* ---------- arrays of words ---------- *)
